@@ -117,7 +117,8 @@ func runC16(tier string, seed uint64) {
 	buckets := []string{"bkt", "b-2"}
 	keys := []string{"k", "d/e", "k with space", "\xc3\xbc", "a.b", "d/e/f.txt",
 		"d//e", "d/./e", "x/../k", ".hid", "e..", "d/e/../e",
-		"y=2024/p+0.q", "t/12:30", "a(b)!*'", "c@d,e;f"} // ... and characters the SDKs send percent-encoded (net/url then keeps a RawPath) // segments a path cleaner would fold (all twins run on the memory backend)
+		"y=2024/p+0.q", "t/12:30", "a(b)!*'", "c@d,e;f",
+		"bkt", "bkt/k", "b-2/d/e", "bkt.s3.example.com/k"} // keys named like the bucket, or beginning with its name, or with the whole host // ... and characters the SDKs send percent-encoded (net/url then keeps a RawPath) // segments a path cleaner would fold (all twins run on the memory backend)
 	n := 400
 	if tier == "thorough" {
 		n = 6000
